@@ -2,8 +2,10 @@ package main
 
 import (
 	"fmt"
+	"go/constant"
 	"go/token"
 	"go/types"
+	"strings"
 
 	"golang.org/x/tools/go/ssa"
 )
@@ -400,4 +402,199 @@ func c14StaleStatus(w *World, r *Report) {
 	if n == 0 {
 		panic(undecided{"no function derives an effective status from an inherited-status parameter"})
 	}
+}
+
+// c12InheritUnconditional: inheritCommonProperties hands the parent's
+// if-feature, when and status statements to the child unconditionally: its
+// body is straight-line (one basic block, no closure) and each
+// parent.ChildrenByType(kind) result is passed directly to
+// child.AddChildren / child.AddWhenChildren.
+func c12InheritUnconditional(w *World, r *Report, rule string) {
+	f := w.SSAFunc(w.Func("compile", "inheritCommonProperties"))
+	if f == nil {
+		panic(undecided{"compile.inheritCommonProperties"})
+	}
+	names, _ := nodeTypeNames(w)
+	straight := len(f.Blocks) == 1 && len(f.AnonFuncs) == 0
+	got := map[string]bool{}
+	if len(f.Blocks) > 0 {
+		for _, in := range f.Blocks[0].Instrs {
+			c, ok := in.(*ssa.Call)
+			if !ok || !c.Call.IsInvoke() || (c.Call.Method.Name() != "AddChildren" && c.Call.Method.Name() != "AddWhenChildren") || c.Call.Value != ssa.Value(f.Params[1]) {
+				continue
+			}
+			src, ok := c.Call.Args[len(c.Call.Args)-1].(*ssa.Call)
+			if !ok || !src.Call.IsInvoke() || src.Call.Method.Name() != "ChildrenByType" || src.Call.Value != ssa.Value(f.Params[0]) {
+				continue
+			}
+			if k, ok := src.Call.Args[0].(*ssa.Const); ok && k.Value != nil {
+				if v, ok := constant.Int64Val(constant.ToInt(k.Value)); ok {
+					got[names[v]] = true
+				}
+			}
+		}
+	}
+	for _, k := range []string{"if-feature", "when", "status"} {
+		r.Check(straight && got[k], rule, "inheritCommonProperties hands down "+k+" unconditionally", f.Pos(), "child.Add…Children(parent.ChildrenByType("+k+")...) in a straight-line body",
+			"the "+k+" written on a uses/augment is not (or only conditionally) added to each node it introduces: e.g. a node with its own "+k+" no longer receives the enclosing one, so it stays present/current when the uses or augment is disabled/obsolete")
+	}
+}
+
+// R14.9  deviate not-supported is exclusive wherever it stands: the
+// application of a not-supported deviate is dominated by a test that raises
+// the error whenever the deviation has more than one deviate statement, and
+// that test depends on nothing else (in particular not on the position of the
+// not-supported statement among its siblings).
+func c14NotSupportedExclusive(w *World, r *Report) {
+	f := w.SSAFunc(w.Method("compile", "Compiler", "processDeviations"))
+	if f == nil {
+		panic(undecided{"Compiler.processDeviations"})
+	}
+	cerr := w.SSAFunc(w.Method("compile", "Compiler", "error"))
+	var apply *ssa.Call
+	for _, b := range f.Blocks {
+		for _, in := range b.Instrs {
+			c, ok := in.(*ssa.Call)
+			if !ok || c.Call.StaticCallee() == nil || c.Call.StaticCallee().Name() != "doDeviate" {
+				continue
+			}
+			last := c.Call.Args[len(c.Call.Args)-1]
+			if mi, ok := last.(*ssa.MakeInterface); ok && strings.Contains(mi.X.Type().String(), "deviateNotSupported") {
+				apply = c
+			}
+		}
+	}
+	if apply == nil {
+		panic(undecided{"processDeviations: application of deviateNotSupported not found"})
+	}
+	ok := false
+	for _, b := range f.Blocks {
+		iff, isIf := b.Instrs[len(b.Instrs)-1].(*ssa.If)
+		if !isIf || !b.Dominates(apply.Block()) {
+			continue
+		}
+		bo, isBo := iff.Cond.(*ssa.BinOp)
+		if !isBo || bo.Op != token.GTR {
+			continue
+		}
+		k, isK := bo.Y.(*ssa.Const)
+		ln, isLen := bo.X.(*ssa.Call)
+		if !isK || !isLen || k.Value == nil {
+			continue
+		}
+		if v, _ := constant.Int64Val(constant.ToInt(k.Value)); v != 1 {
+			continue
+		}
+		if bi, isB := ln.Call.Value.(*ssa.Builtin); !isB || bi.Name() != "len" {
+			continue
+		}
+		raises := false
+		for _, in := range b.Succs[0].Instrs {
+			if c, isC := in.(*ssa.Call); isC && c.Call.StaticCallee() == cerr {
+				raises = true
+			}
+		}
+		// the test must stand in the not-supported arm: the arm's entry (a block that tests the kind of the
+		// current deviate) dominates it, i.e. the test is inside the loop over the deviate statements
+		inLoop := false
+		for _, l := range ssaLoops(f) {
+			if l.body()[b] && l.body()[apply.Block()] && b != l.Header {
+				inLoop = true
+			}
+		}
+		if raises && inLoop {
+			ok = true
+		}
+	}
+	r.Check(ok, "R14.9", "processDeviations: not-supported excludes every other deviate", apply.Pos(), "len(deviates) > 1 ⇒ error, tested where the not-supported deviate is applied", "a not-supported deviate can be applied although the deviation has other deviate statements (the exclusivity test is missing, conditional on more than the count, or made only for one position): RFC 6020 §7.18.3.2 forbids the combination")
+}
+
+// c13EveryPartChecked (R13.4): validateRangeBoundaries tests end < start for
+// every part of a restriction: part 0 on every path through the function, the
+// others in a loop whose induction variable starts at 1 (or 0) and whose test
+// is executed on every iteration.
+func c13EveryPartChecked(w *World, r *Report) {
+	f := w.SSAFunc(w.Method("compile", "Compiler", "validateRangeBoundaries"))
+	if f == nil {
+		panic(undecided{"Compiler.validateRangeBoundaries"})
+	}
+	// index argument of ranges.GetEnd(k) / GetStart(k) inside LessThan(GetEnd(k), GetStart(k))
+	partIndex := func(c ssa.Value) (ssa.Value, bool) {
+		call, ok := c.(*ssa.Call)
+		if !ok || !call.Call.IsInvoke() || call.Call.Method.Name() != "LessThan" || len(call.Call.Args) != 2 {
+			return nil, false
+		}
+		get := func(v ssa.Value, name string) ssa.Value {
+			g, ok := v.(*ssa.Call)
+			if !ok || !g.Call.IsInvoke() || g.Call.Method.Name() != name || len(g.Call.Args) != 1 {
+				return nil
+			}
+			return g.Call.Args[0]
+		}
+		e, s := get(call.Call.Args[0], "GetEnd"), get(call.Call.Args[1], "GetStart")
+		if e == nil || s == nil || e != s {
+			if ec, ok := e.(*ssa.Const); ok {
+				if sc, ok := s.(*ssa.Const); ok && ec.Value != nil && sc.Value != nil && constant.Compare(ec.Value, token.EQL, sc.Value) {
+					return e, true
+				}
+			}
+			return nil, false
+		}
+		return e, true
+	}
+	var returns []*ssa.BasicBlock
+	for _, b := range f.Blocks {
+		if _, ok := b.Instrs[len(b.Instrs)-1].(*ssa.Return); ok {
+			returns = append(returns, b)
+		}
+	}
+	first, rest := false, false
+	startsAt := int64(-1)
+	loops := ssaLoops(f)
+	for _, b := range f.Blocks {
+		iff, ok := b.Instrs[len(b.Instrs)-1].(*ssa.If)
+		if !ok {
+			continue
+		}
+		k, ok := partIndex(iff.Cond)
+		if !ok {
+			continue
+		}
+		if c, isC := k.(*ssa.Const); isC {
+			if v, _ := constant.Int64Val(constant.ToInt(c.Value)); v == 0 {
+				all := true
+				for _, rb := range returns {
+					if !b.Dominates(rb) {
+						all = false
+					}
+				}
+				if all {
+					first = true
+				}
+			}
+			continue
+		}
+		if phi, isPhi := k.(*ssa.Phi); isPhi {
+			for _, l := range loops {
+				if phi.Block() != l.Header {
+					continue
+				}
+				domAll := true
+				for _, lt := range l.Latches {
+					if !b.Dominates(lt) {
+						domAll = false
+					}
+				}
+				for _, e := range l.Entries {
+					if c, ok := phiEdge(phi, e).(*ssa.Const); ok && c.Value != nil {
+						startsAt, _ = constant.Int64Val(constant.ToInt(c.Value))
+					}
+				}
+				if domAll && (startsAt == 0 || startsAt == 1) {
+					rest = true
+				}
+			}
+		}
+	}
+	r.Check(rest && (first || startsAt == 0), "R13.4", "validateRangeBoundaries checks end >= start for every part", f.Pos(), "part 0 on every path, parts 1..n-1 in the loop", "some part of a multi-part range/length is not tested for end < start (e.g. the first part when there are several): `range \"9..3 | 20..30\"` compiles and the leaf silently accepts nothing in 3..9")
 }
